@@ -552,10 +552,19 @@ class IMAPClient:
                         )
                         self.ibuffer = []
                         self.ibuffer_size = 0
-                        # Drain the line terminator that follows the
-                        # literal declaration so we stay in sync.
+                        # The line terminator that follows the literal
+                        # declaration has already been read. A client that
+                        # used a synchronizing literal is waiting for our
+                        # continuation request and will not send the literal,
+                        # so what follows is its next command. A client
+                        # that used a non-synchronizing literal sends the
+                        # literal and the rest of the command regardless: skip
+                        # that so we stay in sync.
                         #
-                        await self.reader.readuntil(self.LINE_TERMINATOR)
+                        if m.group(2):
+                            await self._skip_rest_of_command(
+                                literal_str_length
+                            )
                         continue
 
                     # If this is a synchronizing string literal (does not have
@@ -594,6 +603,10 @@ class IMAPClient:
                         )
                         self.ibuffer = []
                         self.ibuffer_size = 0
+                        # The rest of this command is still on its way. It
+                        # must not be taken for a new command.
+                        #
+                        await self._skip_rest_of_command(0)
                         continue
 
                     # Loop back to read what is either a b'\r\n' or maybe
@@ -659,6 +672,33 @@ class IMAPClient:
                 except asyncio.CancelledError:
                     pass
             await self.close()
+
+    ####################################################################
+    #
+    async def _skip_rest_of_command(self, literal_length: int) -> None:
+        """
+        Read and discard the remainder of a command that has been refused:
+        `literal_length` octets of literal data that are already on their
+        way, then the rest of the command line, and so on for every further
+        non-synchronizing literal in it. The literal data is read in bounded
+        chunks so that skipping it does not use the memory we refused to use.
+
+        Stops at a synchronizing literal: we never send its continuation
+        request so the client does not send it.
+        """
+        while True:
+            while literal_length > 0:
+                chunk = await self.reader.read(
+                    min(literal_length, self.stream_buffer_size)
+                )
+                if not chunk:
+                    raise asyncio.IncompleteReadError(b"", literal_length)
+                literal_length -= len(chunk)
+            msg = await self.reader.readuntil(self.LINE_TERMINATOR)
+            m = RE_LITERAL_STRING_START.search(msg.rstrip())
+            if not m or not m.group(2):
+                return
+            literal_length = int(m.group(1))
 
     ####################################################################
     #
